@@ -145,6 +145,7 @@ class Engine:
         self.class_ids = {c: i + 1 for i, c in enumerate(module.classes)}
         self.dyntype = z3.Function("dyntype", S.RefS, z3.IntSort())
         self.ufuncs = {}
+        self.static_helpers = set()
         self.axioms_cache = None
         self.proved_lemmas = []  # z3 formulas usable as axioms
         self.extra_axioms = {}  # axioms of builtin summaries, added on first use
@@ -1496,7 +1497,57 @@ class Interp:
             return FuncObj("builtin:" + name)
         if name in ("True", "False"):
             return mk_bool(name == "True")
+        if self.auto_inline_function(name):
+            return FuncObj(name)
         return ModuleObj(name)
+
+    def _unit_file(self):
+        fs = self.fs
+        return getattr(fs, "file", None) if fs is not None else None
+
+    def auto_inline_function(self, name):
+        """a module-level helper of the file under verification that has no contract: its REAL body is inlined at the call (this is
+        what a small 'extract function' refactoring produces); recorded in the evidence as an inlined function"""
+        f = self._unit_file()
+        if not f or not name.isidentifier() or name in self.m.inlines:
+            return name in self.m.inlines
+        try:
+            fnode, _, cnode = locate(self.eng.repo, f, name)
+        except Exception:
+            return False
+        if fnode is None or cnode is not None or any(isinstance(x, (ast.Yield, ast.YieldFrom)) for x in ast.walk(fnode)):
+            return False
+        self.m.inlines[name] = f
+        self.eng.idioms.setdefault(self.fname, set()).add(f"helper {name} (no contract) inlined from {f}")
+        return True
+
+    def auto_inline_method(self, clsname, attr):
+        f = self._unit_file()
+        if not f:
+            return None
+        todo, seen = [clsname], set()
+        while todo:
+            c = todo.pop(0)
+            if c in seen:
+                continue
+            seen.add(c)
+            q = f"{c}.{attr}"
+            try:
+                fnode, _, cnode = locate(self.eng.repo, f, q)
+            except Exception:
+                fnode = None
+            if fnode is not None and not any(isinstance(x, (ast.Yield, ast.YieldFrom)) for x in ast.walk(fnode)):
+                decos = {ast.unparse(d).split(".")[-1] for d in fnode.decorator_list}
+                if decos - {"staticmethod"}:
+                    return None  # properties, classmethods, cached ... are not guessed
+                self.m.inlines[q] = f
+                if "staticmethod" in decos:
+                    self.eng.static_helpers.add(q)
+                self.eng.idioms.setdefault(self.fname, set()).add(f"helper {q} (no contract) inlined from {f}")
+                return q
+            if c in self.m.classes:
+                todo += self.m.classes[c].bases
+        return None
 
     def const_value(self, dotted):
         so, val = self.m.consts[dotted]
@@ -1572,6 +1623,8 @@ class Interp:
                     spec = self.m.contracts.get(q)
                     if (spec and spec.options.get("property")) or (q in self.m.inlines and q in self.m.options.get("properties", [])):
                         return self.call_named(q, kind, [base], {}, node)
+                    if q in self.eng.static_helpers:
+                        return FuncObj(q, recv=None)
                     fo = FuncObj(q, recv=base)
                     fo.virtual = True
                     return fo
@@ -1582,6 +1635,10 @@ class Interp:
                     from .builtins import value_method
 
                     return value_method(self, base, attr, node)
+                q = self.auto_inline_method(so.cls, attr)
+                if q:
+                    fo = FuncObj(q, recv=None if q in self.eng.static_helpers else base)
+                    return fo
                 raise OutOfSubset(f"attribute {so.cls}.{attr} not declared")
             from .builtins import value_method
 
